@@ -500,6 +500,8 @@ def gen_case(rng, index, tier):
     case['opts'] = opts
     case['stdin'] = stdin
     case['optclass'] = optclass
+    if index % 12 == 5:
+        case['interrupts'] = 3
     if any(not a['spelling'] for a in args):
         return None
     return case
@@ -542,7 +544,53 @@ def run_case(case):
         argv += [world.subst(a['spelling'], w.R) for a in case['args']]
         r = run.run(w, 'put', argv, stdin=case.get('stdin', '').encode())
         s1 = w.snapshot()
-        return judge(case, w, r, s0, s1, des, out)
+        res = judge(case, w, r, s0, s1, des, out)
+    if case.get('interrupts') and res.get('verdict') == 'ok' and not r.timeout:
+        interrupted_runs(case, r, res)
+    return res
+
+
+def interrupted_runs(case, ref, out):
+    """the same command line interrupted (SIGINT as Python delivers it:
+    KeyboardInterrupt when a system call returns) after a few of its mutating
+    operations: the run fails, and what it says about itself must still be
+    true - an argument is whole in the trash WITH its .trashinfo, or still in
+    place; a .trashinfo whose payload never arrived is all that may be left
+    over (C05 speaks about that one)"""
+    import random
+    ks = [e['k'] for e in ref.events if e['c'] == 'M']
+    rng = random.Random(len(ks) * 7919 + len(case['args']))
+    for k in rng.sample(ks, min(len(ks), case['interrupts'])):
+        with world.World(case) as w:
+            cwd = w.cwd()
+            des = [designated(w, cwd, a['spelling']) for a in case['args']]
+            s0 = w.snapshot()
+            argv = [world.subst(o, w.R) for o in case['opts']] + ['--'] + \
+                [world.subst(a['spelling'], w.R) for a in case['args']]
+            r = run.run(w, 'put', argv, stdin=case.get('stdin', '').encode(),
+                        plan={'interrupt_after': k})
+            s1 = w.snapshot()
+            if r.timeout or not r.crash or r.crash.get('why') != 'interrupt-after':
+                continue
+            out['obs']['interrupted_runs'] = out['obs'].get('interrupted_runs', 0) + 1
+            A = putcheck.analyze(s0, s1, des)
+            for a, o in zip(case['args'], A.outcomes):
+                if o['state'] not in ('TRASHED', 'UNTOUCHED', 'NOTHING') and \
+                        not (o['state'] == 'ALTERED' and o.get('only_symlink_mtime')) \
+                        and not fallback_on(case):
+                    out['violations'].append({
+                        'mechanism': 'interrupted:%s/%s' % (o['state'], a['class']),
+                        'detail': dict(detail(case, w, r, o, A),
+                                       interrupt=r.crash)})
+            bad = [f for f in A.frame if f[0] in ('orphan-payload', 'unattributed-pair',
+                                                  'removed', 'modified')]
+            if bad and not fallback_on(case) and not out['violations']:
+                out['violations'].append({
+                    'mechanism': 'interrupted:frame:' + '+'.join(sorted(set(f[0] for f in bad))),
+                    'detail': dict(detail(case, w, r, None, A), interrupt=r.crash)})
+        if out['violations']:
+            out['verdict'] = 'violation'
+            break
 
 
 def judge(case, w, r, s0, s1, des, out):
